@@ -78,6 +78,10 @@ class Moves(Part):
         for alg in ("omopso", "smpso", "psoga"):
             for shift, scale in ((0, 1), (-10, 1), (100, 3), (-7, 0.5)) if not ctx.quick else ((0, 1), (-10, 1), (-7, 0.5)):
                 cases.append({"kind": "movetable", "alg": alg, "shift": shift, "scale": scale})
+            # the same table on boxes whose bounds, centre and width are not exactly representable: a coordinate that leaves the box is put
+            # ON the violated bound (the very float the box declares), not next to it
+            for box in ([0.1, 0.4], [-1.3, 2.9], [1.0 / 3.0, 3.141592653589793], [1e6 / 7.0, 2e6 / 7.0], [-0.7, 0.1]):
+                cases.append({"kind": "movetable", "alg": alg, "shift": 0, "scale": 1, "box": box})
         cases.append({"kind": "constrict"})
         for alg in ("omopso", "smpso", "psoga"):
             for _ in range(30 if ctx.quick else 2500):
@@ -91,20 +95,42 @@ class Moves(Part):
         if case["kind"] == "movetable":
             sh, sc = case["shift"], case["scale"]
             lb, ub = 0, 4
-            bounds = [[(lb + sh) * sc, (ub + sh) * sc]] * 3
+            box = case.get("box")
+            if box:
+                L, U = box
+                w = (U - L) / 4.0
+                to_pos, to_vel = (lambda q: L + q * w), (lambda q: q * w)
+                bounds = [[L, U]] * 3
+            else:
+                to_pos, to_vel = (lambda q: (q + sh) * sc), (lambda q: q * sc)
+                bounds = [[(lb + sh) * sc, (ub + sh) * sc]] * 3
             alg = make_alg(case["alg"], two_obj_problem(bounds, 3))
             trace = []
             combos = [(p, v) for p in range(-3, 8) for v in range(-9, 10)]
+            if box:
+                # landing exactly on a bound is decided by rounding on such a box: the model's verdict needs a clear inside / outside
+                combos = [(p, v) for p, v in combos if p + v not in (0, 4)]
             # three coordinates per particle: the loop over coordinates is part of what is checked
             for i in range(0, len(combos) - 2, 3):
                 tri = combos[i:i + 3]
-                ind = Individual([(p + sh) * sc for p, v in tri])
-                ind.features['velocity'] = [v * sc for p, v in tri]
+                ind = Individual([to_pos(p) for p, v in tri])
+                ind.features['velocity'] = [to_vel(v) for p, v in tri]
                 st, res = observe(alg.update_position, [ind])
                 for j, (p, v) in enumerate(tri):
                     ev = {"ev": "move", "kind": KIND[case["alg"]], "lb": lb, "ub": ub, "pos": p, "vel": v, "pos2": 0, "vel2": [0, 1], "exc": ""}
                     if st == "exc":
                         ev["exc"] = res
+                    elif box:
+                        x = ind.vector[j]
+                        v2 = (Fraction(ind.features['velocity'][j]) / Fraction(w)).limit_denominator(100000)
+                        ev["vel2"] = [v2.numerator, v2.denominator]
+                        q = (x - L) / w
+                        if x == U or x == L:
+                            ev["pos2"] = 4 if x == U else 0
+                        elif L < x < U and abs(q - round(q)) < 1e-6 and 0 < round(q) < 4:
+                            ev["pos2"] = int(round(q))
+                        else:
+                            ev["exc"] = "position %r is neither inside the box on the expected lattice point nor on a bound of [%r, %r]" % (x, L, U)
                     else:
                         p2 = Fraction(ind.vector[j]) / Fraction(sc) - sh
                         v2 = (Fraction(ind.features['velocity'][j]) / Fraction(sc)).limit_denominator(100000)
